@@ -20,12 +20,17 @@
     Status of each, see below. *)
 From Coq Require Import List NArith Bool.
 From XmlRs Require Import Base.CPred Model.Store Model.DomOps Proofs.DomTree Proofs.DomOpsInv
-  Proofs.DomL1NoPanic Proofs.DomL1Atomic Proofs.DomL1Abs Proofs.DomL1Refine Proofs.DomL1RefineInsert Proofs.DomL1RefineAttr Proofs.DomPrintable Proofs.DomExample Proofs.DomC12.
+  Proofs.DomL1NoPanic Proofs.DomL1Atomic Proofs.DomL1Abs Proofs.DomL1Refine Proofs.DomL1RefineInsert Proofs.DomL1RefineAttr Proofs.DomPrintable Proofs.DomExample Proofs.DomC12
+  Proofs.DomCheck Proofs.DomL1RefineValue Proofs.DomL1Frame Proofs.DomL1RefineSetAttr Proofs.DomL1RefineInv Proofs.DomL1RefineSplit
+  Proofs.DomL1RefineDoc Proofs.DomL1RefineNames Proofs.DomL1RefineAll.
 From XmlRs Require Spec.DomCharData Spec.DomL1.
 Import ListNotations.
 Open Scope N_scope.
 
-(** ** refinement.  FULL STATEMENT (not proved in full):
+(** ** refinement.  FULL STATEMENT (proved as [C13_step_refines] / [C13_step_refines_reachable] in the
+    form given there: with [conforms], outside the listed finding classes [Known13], under the
+    agreement of the string facts with the grammar [op_facts_agree], and with the pre-state of
+    [set_attribute] taken after the node the implementation builds first -- see below):
 
       step_refines : forall w o ao, WInv w -> abs_op o = Some ao ->
         abs (fst (step w o)) = fst (DomL1.dom_step (abs w) ao)
@@ -66,12 +71,51 @@ Open Scope N_scope.
       delete_data, replace_data -- unconditional;
     - rung "text factories" [C13_step_refines_partial_factories]: create_text_node, create_comment,
       create_cdata_section, create_document_fragment, outside D42 ([Known42]).
-    NOT PROVED: replace_child on the Document, set_attribute, remove_attribute_node (it needs that
-    qualified names are unique within an element), split_text, the PI calls and
-    the factories that take names (the last three groups need the agreement of the
-    implementation's parser facts with the grammar of the specification).  Those are compared with
-    the extracted [dom_step] on the implementation, call by call, by checks/C13.py (the matrix of
-    receiver kind x argument kind x position for every mutator and random histories). *)
+    - rung "set_attribute" [C13_step_refines_partial_set_attribute]: set_attribute(name, value) on
+      every receiver -- INVALID_CHARACTER_ERR for a string that is no QName, the value of the
+      attribute that is present is replaced on the same Attr node (the old value nodes lose their
+      parent, one node per piece of the literal is created), a new Attr is created and added
+      otherwise, a value that is no attribute value literal or that refers to an unknown entity is
+      refused.  The implementation calls create_attribute before it looks: when the attribute is
+      present or the value is refused, the node it built stays behind -- unattached, referred to by
+      nothing, never handed out ([Garbage]).  The theorem therefore gives the outcome for the
+      world as it is ([abs w]) and the resulting state as the specification's result from
+      [set_attribute_pre] (the world plus that one node; equal to [w] when the new attribute is
+      needed and accepted).  [C13_step_refines_partial_set_attribute_strict]: [refines_on] itself
+      outside [KnownSetAttrGarbage].  Hypotheses: [WPrintable], [WEnts] (no entity listed both as
+      usable and as unusable: an invariant, [C13_inv2_reachable]) and the agreement of the facts
+      that travel with the two strings with the grammar of the specification
+      ([attr_name_agrees], [value_facts_agree]: the implementation's parser is not modelled here).
+    - rung "remove_attribute_node" [C13_step_refines_partial_remove_attribute_node]: removes exactly
+      the node passed, NOT_FOUND_ERR when it is not an attribute of the receiver (a node of another
+      document, of another element, a detached one); under [WUniq] (qualified names are unique
+      within an element: an invariant of every reachable world, [C13_inv2_reachable]);
+    - rung "split_text" [C13_step_refines_partial_split_text]: every receiver and offset --
+      INDEX_SIZE_ERR beyond the length, the tail becomes a new node of the same type that is the
+      next sibling, the receiver keeps the head; atomic on failure; without a parent Level 1 is
+      silent ([conforms]: the model refuses and changes nothing).
+    - rung "replace_child, every receiver" [C13_step_refines_partial_replace_any]: the Document
+      included, outside the finding class C13-DOC-MOVE ([KnownDocMove]: the new child is an Element
+      / DocumentType that already is a child of the Document; [KnownDocSwap]: the new child and the
+      child to replace are both Element / DocumentType -- the Document refuses, Level 1 replaces);
+    - rung "names" [C13_step_refines_partial_create_element], [_create_attribute], [_create_pi],
+      [_create_entity_reference], [C13_step_refines_partial_pi_set_data],
+      [C13_step_refines_partial_set_node_value]: under the agreement of the parser facts that travel
+      with the string with the grammar of the specification ([elem_name_agrees],
+      [attr_name_agrees], [pi_target_agrees], [ref_name_agrees], [pi_data_agrees],
+      [value_facts_agree]; the listed finding D04 is a case where they do not agree).
+    THE WHOLE: [C13_step_refines] -- every operation, by case analysis over [op] dispatching to the
+    rungs, with the union of the exclusions [Known13] (D42, C13-DOC-MOVE, C13-LEAF-RM,
+    C13-NS-HIDDEN) and [op_facts_agree]; [C13_step_refines_reachable]: in every world reachable from
+    an initial world that satisfies the invariants ([WInv2], [WPrintable]; C15's hypothesis
+    [op_facts_ok] on the history keeps [WPrintable]); [C13_step_refines_reachable_fact_free]:
+    histories and calls that carry no string facts (tree edits, attribute nodes, by-name removal,
+    character data, text factories, split_text) need no hypothesis about facts at all.
+    NOT PROVED: that the facts computed by the implementation's parser agree with the grammar
+    (hypothesis [op_facts_agree]; it is what C02 / C18 and the [dom] correspondence are about), and
+    the calls inside the listed finding classes.  Every call is also compared with the extracted
+    [dom_step] on the implementation, call by call, by checks/C13.py (the matrix of receiver kind x
+    argument kind x position for every mutator and random histories). *)
 Theorem C13_step_refines_partial_append : forall w r n,
   WInv w -> KnownDocMove w r n = false ->
   DomL1.conforms (abs w) (DomL1.AAppendChild r n) (abs (fst (step w (AppendChild r n)))) (outcome_class (snd (step w (AppendChild r n)))).
@@ -124,6 +168,94 @@ Proof. exact step_refines_partial_remove. Qed.
 Theorem C13_step_refines_partial_factories : forall w o ao,
   WInv w -> is_text_factory o = true -> Known42 o = false -> abs_op o = Some ao -> refines_on w o ao.
 Proof. exact step_refines_partial_factories. Qed.
+
+Theorem C13_step_refines_partial_set_attribute : forall w (r : nref) name value,
+  WInv w -> WPrintable w -> WEnts w -> attr_name_agrees name -> value_facts_agree value ->
+  let pre := set_attribute_pre w r name value in
+  let o := SetAttribute r name value in
+  let ao := DomL1.ASetAttribute r (n_str name) (d_str value) in
+  Garbage w pre
+  /\ abs (fst (step w o)) = fst (DomL1.dom_step (abs pre) ao)
+  /\ outcome_class (snd (step w o)) = snd (DomL1.dom_step (abs pre) ao)
+  /\ snd (DomL1.dom_step (abs pre) ao) = snd (DomL1.dom_step (abs w) ao).
+Proof. exact set_attribute_refines. Qed.
+
+Theorem C13_step_refines_partial_set_attribute_strict : forall w (r : nref) name value,
+  WInv w -> WPrintable w -> WEnts w -> attr_name_agrees name -> value_facts_agree value ->
+  KnownSetAttrGarbage w r name value = false ->
+  refines_on w (SetAttribute r name value) (DomL1.ASetAttribute r (n_str name) (d_str value)).
+Proof. exact step_refines_partial_set_attribute_strict. Qed.
+
+Theorem C13_step_refines_partial_remove_attribute_node : forall w (r a : nref),
+  WInv w -> WUniq w -> refines_on w (RemoveAttributeNode r a) (DomL1.ARemoveAttributeNode r a).
+Proof. exact step_refines_partial_remove_attribute_node. Qed.
+
+Theorem C13_step_refines_partial_split_text : forall w (r : nref) off,
+  WInv w ->
+  DomL1.conforms (abs w) (DomL1.ASplitText r off) (abs (fst (step w (SplitText r off)))) (outcome_class (snd (step w (SplitText r off)))).
+Proof. exact step_refines_partial_split_text. Qed.
+
+Theorem C13_step_refines_partial_replace_any : forall w (r n o : nref),
+  WInv w -> KnownDocMove w r n = false -> KnownDocSwap w r n o = false ->
+  DomL1.conforms (abs w) (DomL1.AReplaceChild r n o) (abs (fst (step w (ReplaceChild r n o))))
+                 (outcome_class (snd (step w (ReplaceChild r n o)))).
+Proof. exact step_refines_partial_replace_any. Qed.
+
+Theorem C13_step_refines_partial_create_element : forall w d name,
+  WInv w -> elem_name_agrees name -> refines_on w (CreateElement d name) (DomL1.ACreateElement d (n_str name)).
+Proof. exact step_refines_partial_create_element. Qed.
+
+Theorem C13_step_refines_partial_create_attribute : forall w d name,
+  WInv w -> attr_name_agrees name -> refines_on w (CreateAttribute d name) (DomL1.ACreateAttribute d (n_str name)).
+Proof. exact step_refines_partial_create_attribute. Qed.
+
+Theorem C13_step_refines_partial_create_pi : forall w d target data,
+  WInv w -> pi_target_agrees target -> pi_data_agrees data ->
+  refines_on w (CreateProcessingInstruction d target data) (DomL1.ACreateProcessingInstruction d (n_str target) (d_str data)).
+Proof. exact step_refines_partial_create_pi. Qed.
+
+Theorem C13_step_refines_partial_create_entity_reference : forall w d name,
+  WInv w -> ref_name_agrees name ->
+  refines_on w (CreateEntityReference d name) (DomL1.ACreateEntityReference d (n_str name)).
+Proof. exact step_refines_partial_create_entity_reference. Qed.
+
+Theorem C13_step_refines_partial_pi_set_data : forall w (r : nref) v,
+  WInv w -> pi_data_agrees v -> refines_on w (PISetData r v) (DomL1.APISetData r (d_str v)).
+Proof. exact step_refines_partial_pi_set_data. Qed.
+
+Theorem C13_step_refines_partial_set_node_value : forall w (r : nref) v,
+  WInv w -> WEnts w -> value_facts_agree v -> pi_data_agrees v ->
+  refines_on w (SetNodeValue r v) (DomL1.ASetNodeValue r (d_str v)).
+Proof. exact step_refines_partial_set_node_value. Qed.
+
+(** ** the whole: every operation.  [conforms_from w o ao] =
+      [Garbage w (pre_world w o)]
+      /\ [DomL1.conforms (abs (pre_world w o)) ao (abs (fst (step w o))) (outcome_class (snd (step w o)))]
+      /\ [snd (dom_step (abs (pre_world w o)) ao) = snd (dom_step (abs w) ao)]
+    where [pre_world w o = w] for every operation but [SetAttribute] *)
+Theorem C13_step_refines : forall w o ao,
+  WInv2 w -> WPrintable w -> op_facts_agree o -> Known13 w o = false -> abs_op o = Some ao -> conforms_from w o ao.
+Proof. exact step_refines_all. Qed.
+
+Theorem C13_step_refines_reachable : forall init ops o ao,
+  WInv2 init -> WPrintable init -> Forall op_facts_ok ops ->
+  op_facts_agree o -> Known13 (run init ops) o = false -> abs_op o = Some ao ->
+  conforms_from (run init ops) o ao.
+Proof. exact step_refines_reachable. Qed.
+
+Theorem C13_step_refines_reachable_fact_free : forall init ops o ao,
+  WInv2 init -> WPrintable init -> forallb fact_free ops = true -> fact_free o = true ->
+  Known13 (run init ops) o = false -> abs_op o = Some ao ->
+  DomL1.conforms (abs (run init ops)) ao (abs (fst (step (run init ops) o))) (outcome_class (snd (step (run init ops) o))).
+Proof. exact step_refines_reachable_fact_free. Qed.
+
+(** the invariants the new rungs assume hold in every reachable world: the tree invariant, unique
+    qualified names within an element, consistent entity tables ([WInv2] is their conjunction) *)
+Theorem C13_inv2_reachable : forall init ops, WInv2 init -> WInv2 (run init ops).
+Proof. intros init ops. apply run_inv2. Qed.
+
+Theorem C13_inv2_parts : forall w, WInv2 w <-> WInv w /\ WUniq w /\ WEnts w.
+Proof. intros w. split; [apply winv2_split | intros [H1 [H2 H3]]; apply winv2_join; assumption]. Qed.
 
 (** the rungs along histories *)
 Theorem C13_data_refines_reachable : forall init ops o ao,
@@ -188,6 +320,64 @@ Proof.
   repeat split; vm_compute; reflexivity.
 Qed.
 
+(** the hypotheses of the rungs set_attribute, remove_attribute_node and split_text are satisfiable by a
+    non-trivial world and calls: on <r><a x="1">t</a><b/></r>, set_attribute(a, "x", "2&lt;")
+    changes the value of the attribute that is present (the node built first stays behind:
+    [KnownSetAttrGarbage]), set_attribute(a, "y", "v") adds a new attribute (strict refinement),
+    remove_attribute_node(a, x) removes it, remove_attribute_node(r, x) raises NOT_FOUND_ERR,
+    split_text(t, 1) is done and split_text(t, 2) raises INDEX_SIZE_ERR *)
+Lemma ex_table_prop (Q : item -> Prop) : (forall j x, In (j, x) ex_items -> Q x) ->
+  forall i x, get ex_store i = Some x -> Q x.
+Proof.
+  intros H i x G. unfold ex_store, StoreCheck.store_of_list, get in G. cbn [items] in G.
+  destruct (lookup_in ex_items i x G) as [j [_ [Hin _]]]. exact (H j x Hin).
+Qed.
+
+Definition nm (s : str) : name_info := mkName s (Some (None, s)) (Some (None, s)) (Some s) true.
+Definition val_2lt : data_info := mkData [50; 38; 108; 116; 59] false false false None (Some [VText [50]; VEnt [108; 116]]).
+Definition val_v : data_info := mkData [118] true true true None (Some [VText [118]]).
+
+Example C13_example_attr :
+  WInv2 ex_world /\ WPrintable ex_world
+  /\ attr_name_agrees (nm [120]) /\ attr_name_agrees (nm [121]) /\ value_facts_agree val_2lt /\ value_facts_agree val_v
+  /\ snd (step ex_world (SetAttribute (0, 3) (nm [120]) val_2lt)) = Ok RUnit
+  /\ KnownSetAttrGarbage ex_world (0, 3) (nm [120]) val_2lt = true
+  /\ snd (step ex_world (SetAttribute (0, 3) (nm [121]) val_v)) = Ok RUnit
+  /\ KnownSetAttrGarbage ex_world (0, 3) (nm [121]) val_v = false
+  /\ snd (DomL1.dom_step (abs ex_world) (DomL1.ASetAttribute (0, 3) [58] [118])) = DomL1.ARaised (DomL1.Dom DomCharData.InvalidCharacterErr)
+  /\ snd (DomL1.dom_step (abs ex_world) (DomL1.ASetAttribute (0, 3) [121] [38])) = DomL1.ARaised DomL1.Refused
+  /\ snd (step ex_world (RemoveAttributeNode (0, 3) (0, 4))) = Ok (RNode (0, 4))
+  /\ snd (step ex_world (RemoveAttributeNode (0, 2) (0, 4))) = Failed NotFoundErr
+  /\ snd (step ex_world (SplitText (0, 6) 1)) = Ok (RNode (0, 8))
+  /\ snd (step ex_world (SplitText (0, 6) 2)) = Failed IndexSizeErr.
+Proof.
+  split.
+  { constructor; [|constructor]. split; [exact ex_store_inv|]. split.
+    - intros e eit a b ait bit He Ha Hb _ _ _ _.
+      assert (Q : forall a b, In a (iattrs eit) -> In b (iattrs eit) -> a = b).
+      { apply (ex_table_prop (fun x => forall a b, In a (iattrs x) -> In b (iattrs x) -> a = b)) with (i := e); [|exact He].
+        intros j x Hin. cbn in Hin.
+        repeat (destruct Hin as [Hin|Hin]; [inversion Hin; subst; cbn; intros; intuition congruence|]). destruct Hin. }
+      exact (Q a b Ha Hb).
+    - intros i x G. assert (Q : ients x = []).
+      { apply (ex_table_prop (fun x => ients x = [])) with (i := i); [|exact G]. intros j y Hin. cbn in Hin.
+        repeat (destruct Hin as [Hin|Hin]; [inversion Hin; subst; reflexivity|]). destruct Hin. }
+      rewrite Q. intros n []. }
+  split.
+  { constructor; [|constructor]. intros i x G.
+    apply (ex_table_prop (fun x => PrintableCheck.item_ok x = true)) with (i := i); [|exact G]. intros j y Hin. cbn in Hin.
+    repeat (destruct Hin as [Hin|Hin]; [inversion Hin; subst; vm_compute; reflexivity|]). destruct Hin. }
+  split; [split; [reflexivity | vm_compute; reflexivity]|].
+  split; [split; [reflexivity | vm_compute; reflexivity]|].
+  split.
+  { unfold value_facts_agree. assert (E : DomL1.parse_attvalue (d_str val_2lt) = Some [DomL1.PText [50]; DomL1.PEnt [108; 116]]) by (vm_compute; reflexivity).
+    rewrite E. eexists. split; [reflexivity|]. repeat constructor. }
+  split.
+  { unfold value_facts_agree. assert (E : DomL1.parse_attvalue (d_str val_v) = Some [DomL1.PText [118]]) by (vm_compute; reflexivity).
+    rewrite E. eexists. split; [reflexivity|]. repeat constructor. }
+  repeat split; vm_compute; reflexivity.
+Qed.
+
 Print Assumptions C13_step_refines_partial_append.
 Print Assumptions C13_step_refines_partial_insert.
 Print Assumptions C13_step_refines_partial_replace.
@@ -206,3 +396,19 @@ Print Assumptions C13_failure_atomic.
 Print Assumptions C13_failure_atomic_observe.
 Print Assumptions C13_failure_atomic_set_attribute.
 Print Assumptions C13_failure_atomic_reachable.
+Print Assumptions C13_step_refines_partial_set_attribute.
+Print Assumptions C13_step_refines_partial_set_attribute_strict.
+Print Assumptions C13_step_refines_partial_remove_attribute_node.
+Print Assumptions C13_step_refines_partial_split_text.
+Print Assumptions C13_inv2_reachable.
+Print Assumptions C13_inv2_parts.
+Print Assumptions C13_step_refines_partial_replace_any.
+Print Assumptions C13_step_refines_partial_create_element.
+Print Assumptions C13_step_refines_partial_create_attribute.
+Print Assumptions C13_step_refines_partial_create_pi.
+Print Assumptions C13_step_refines_partial_create_entity_reference.
+Print Assumptions C13_step_refines_partial_pi_set_data.
+Print Assumptions C13_step_refines_partial_set_node_value.
+Print Assumptions C13_step_refines.
+Print Assumptions C13_step_refines_reachable.
+Print Assumptions C13_step_refines_reachable_fact_free.
